@@ -159,6 +159,43 @@ def options_as_given(env):
     env.eq('StopOnPlateau: decreasing as given', s.decreasing, d); env.eq('StopOnPlateau: patience as given', s.patience, P)
 
 
+@bounded('C20.loss_precision', functions=[f'{STP}:ReduceToBason.step', f'{SCH}:StopOnPlateau.step'])
+def loss_precision(rng, tier):
+    """real code: the stopping decisions are taken on the losses AS GIVEN (float64 tensors, scalar or batched, python floats): relative
+    decreases of 1e-8 per step against a threshold of 1e-9, and plateaus of huge losses (1e40), against a python-float model of the documented
+    conditions"""
+    import torch
+    from pypose.utils.stepper import ReduceToBason
+    fails = []; evals = 0
+    def model(losses, steps, patience, decreasing, tol):
+        last = float('inf'); count = 0; out = []
+        cont = True
+        for n, l in enumerate(losses, 1):
+            stop = l < tol or n >= steps
+            count = count + 1 if (last - l) / l < decreasing else 0
+            last = l
+            stop = stop or count >= patience
+            cont = cont and not stop
+            out.append(cont)
+        return out
+    cases = {'fine decreases (1e-8 relative, threshold 1e-9)': ([1.0 * (1 - 1e-8) ** k for k in range(8)], dict(steps=6, patience=2, decreasing=1e-9, tol=1e-30)),
+             'plateau of huge losses (1e40)': ([1e40] * 8, dict(steps=6, patience=2, decreasing=1e-3, tol=1e-5)),
+             'ordinary': ([1.0, 0.5, 0.4999, 0.49989, 0.49988, 0.3], dict(steps=6, patience=2, decreasing=1e-3, tol=1e-5))}
+    for name, (losses, kw) in cases.items():
+        want = model(losses, **kw)
+        # (a python float is converted by torch.tensor(loss), i.e. to the default dtype - documented behaviour; only the ordinary history is run in that form)
+        for form in ('float64 0-d tensor', 'float64 batch of 2') + (('python float',) if name == 'ordinary' else ()):
+            c = ReduceToBason(**kw); got = []
+            for l in losses:
+                if not c.continual(): got.append(False); continue
+                c.step(torch.tensor(l, dtype=torch.float64) if form == 'float64 0-d tensor' else torch.tensor([l, l], dtype=torch.float64) if form == 'float64 batch of 2' else l)
+                got.append(bool(c.continual()))
+            evals += 1
+            if got != want[:len(got)]:
+                fails.append(dict(clause='decisions_on_the_losses_as_given', signature=f'{name}/{form}', got=got, want=want))
+    return dict(evaluations=evals, distinct_nontrivial=evals, rule='3 loss histories x 3 forms of the loss argument', bound='histories of 6-8 losses', failures=fails[:6], samples=[])
+
+
 # ---- driver loops -------------------------------------------------------------------------------
 
 class DriverLoop(loopcut.LoopContract):
